@@ -28,10 +28,11 @@ inductive Outcome where
   | indexError
   | valueError
 
-/-- NumPy `a[idx] = v` for `v` already laid out on the selection: every selected element is
-    written, in row-major order of the selection, so for duplicates the last writer wins -/
-def npAssign {α : Type} (s : Sel) (a : Index → α) (v : Index → α) : Index → α :=
-  fun x => match (indices s.shape).reverse.find? (fun o => s.src o == x) with
+/-- NumPy `a[idx] = v` restricted to the selection coordinates `keep` (for `v` already laid out on
+    the selection): every kept coordinate is written, in row-major order of the selection, so for
+    duplicates the last writer wins.  `keep = fun _ => true` is the plain assignment. -/
+def npAssign {α : Type} (s : Sel) (keep : Index → Bool) (a : Index → α) (v : Index → α) : Index → α :=
+  fun x => match (indices s.shape).reverse.find? (fun o => keep o && s.src o == x) with
     | some o => v o
     | none => a x
 
@@ -79,17 +80,16 @@ def setitem (q : Obj) (indx : List Entry) (rhs : Rhs) : Outcome :=
           let m0 := expandMask q.shape q.mask rhs.mask
           if !p.post.any? then
             -- self._values_[vals_index] = arg_values ; self._mask_[pre_index] = arg_mask
-            .ok ⟨q.shape, npAssign s q.vals rv,
+            .ok ⟨q.shape, npAssign s (fun _ => true) q.vals rv,
                  match m0 with
-                 | .arr m => .arr ⟨q.shape, npAssign s m.get rm⟩
+                 | .arr m => .arr ⟨q.shape, npAssign s (fun _ => true) m.get rm⟩
                  | .all b => .all b⟩
           else
-            -- selection = self[idx]; selection[antimask] = arg[antimask]; self[idx] = selection
-            let selv : Index → Int := fun o => if flagged p o then q.vals (s.src o) else rv o
-            .ok ⟨q.shape, npAssign s q.vals selv,
+            -- every array index reduced to its unmasked elements (`kept_index`): the flagged
+            -- coordinates of the selection are not written at all
+            .ok ⟨q.shape, npAssign s (fun o => !flagged p o) q.vals rv,
                  match m0 with
-                 | .arr m => .arr ⟨q.shape, npAssign s m.get
-                     (fun o => if flagged p o then m.get (s.src o) else rm o)⟩
+                 | .arr m => .arr ⟨q.shape, npAssign s (fun o => !flagged p o) m.get rm⟩
                  | .all b => .all b⟩
 
 /-- one assignment of a sequence; an assignment that raises leaves the object as it was -/
